@@ -297,7 +297,7 @@ def run(ctx):
                 bad("a blob that the new snapshot does not reference was uploaded", case, k, str(alien[:10]))
             missing = sorted(x for x in NEW if x not in STORED)
             if missing:
-                bad("a blob of the new state that the index did not have was NOT uploaded", case, k, str(missing[:10]))
+                bad("a blob of the new state that did not exist before (no index entry backed by a pack file) was NOT uploaded", case, k, str(missing[:10]))
             for x, n in STORED.items():
                 if n > 1:
                     hist["in_run_duplicates"] += n - 1
